@@ -175,6 +175,7 @@ func checkHmmEnumeration(c *core.Ctx) {
 	for n := 1; n <= 3; n++ {
 		shapes = append(shapes, hmmShape{m: 2, n: n, stateMap: []int{1, 0}})
 	}
+	shapes = append(shapes, hmmShape{m: 2, n: 2, stateMap: []int{0, 0}}) // both states tied to one emission
 	if c.Tier == "thorough" {
 		shapes = append(shapes, hmmShape{m: 2, n: 4, stateMap: []int{1, 0}})
 		for n := 1; n <= 3; n++ {
@@ -183,7 +184,7 @@ func checkHmmEnumeration(c *core.Ctx) {
 	}
 	rec := func() vn.Value { return &vn.OpaqueVal{What: "record"} }
 	for _, sh := range shapes {
-		tag := fmt.Sprintf("[m=%d n=%d]", sh.m, sh.n)
+		tag := fmt.Sprintf("[m=%d n=%d map=%v]", sh.m, sh.n, sh.stateMap)
 		total := hmmPathSum(sh, nil)
 		// ---- LogPdf
 		{
